@@ -101,6 +101,18 @@ def judge(store_events, filters, evs, eose, closed):
         if len(attributable) > n_allowed:
             v.append(("at-most-limit", "f%d:%d>%d" % (fi, len(attributable), n_allowed),
                       "%d events attributable only to filter %d were sent, limit allows %d" % (len(attributable), fi, n_allowed)))
+        if len(filters) > 1:
+            # several filters: an event sent that matches ONLY this filter was chosen by this filter's limit, so every match of this
+            # filter that is newer than it must have been sent too (it may also have been sent for another filter)
+            sent_set = set(sent)
+            only = [by_id[i] for i in attributable]
+            if only:
+                oldest_only = min(e["created_at"] for e in only)
+                for e in strict:
+                    if e["id"] not in sent_set and e["created_at"] > oldest_only:
+                        v.append(("newest-first", "f%d:left:%s" % (fi, e["id"][:8]),
+                                  "filter %d: left-out match %s (t=%d) is newer than an event sent only for this filter (t=%d)" % (
+                                      fi, e["id"][:8], e["created_at"], oldest_only)))
         if len(filters) == 1:
             sent_set = set(sent)
             sent_ts = [by_id[i]["created_at"] for i in sent if i in by_id]
